@@ -87,7 +87,9 @@ def load_lut(lut_data: str | pathlib.Path | np.ndarray = "LE-2D-FEM-19"):
     """
     if isinstance(lut_data, tuple):
         lut, meta = lut_data
-        lut = np.array(lut, copy=True)  # copy, because of normalization
+        # copy (because of normalization) as floating point data, such that
+        # integer or single-precision tables are interpolated like any other
+        lut = np.array(lut, dtype=float, copy=True)
         meta = copy.deepcopy(meta)  # copy, for the sake of consistency
     elif isinstance(lut_data, (str, pathlib.Path)):
         lut_path = get_lut_path(lut_data)
